@@ -5,8 +5,6 @@
 //# assumes: decode_common returns the same result for the same document (decode_common_res: a naming, no property assumed)
 #[verifier::external_body]
 pub struct RawSourceMap { _x: u8 }
-#[verifier::external_body]
-pub struct DecodedMap { _x: u8 }
 pub uninterp spec fn json_raw(b: Seq<u8>) -> Option<RawSourceMap>;
 pub uninterp spec fn json_min(b: Seq<u8>) -> Option<MinimalRawSourceMap>;
 pub uninterp spec fn b64_spec(s: Seq<char>) -> Option<Seq<u8>>;
